@@ -32,7 +32,6 @@ type Engine struct {
 	leafCls  map[string][]*HeapClass
 	typeIDs  map[string]int64
 	typeByID map[int64]types.Type
-	strSnap  map[int]strSnap
 	funcs    map[string]*ssa.Function
 	inlineLimit    int
 	inlineExternal map[string]bool
@@ -45,7 +44,7 @@ type Engine struct {
 
 func NewEngine(repo string) *Engine {
 	return &Engine{repo: repo, classes: map[string]*HeapClass{}, bases: map[string]*Heap{}, leafCls: map[string][]*HeapClass{},
-		typeIDs: map[string]int64{}, typeByID: map[int64]types.Type{}, strSnap: map[int]strSnap{}, funcs: map[string]*ssa.Function{},
+		typeIDs: map[string]int64{}, typeByID: map[int64]types.Type{}, funcs: map[string]*ssa.Function{},
 		inlineLimit: 200, inlineExternal: map[string]bool{}, fileOf: map[string]*ast.File{}, exprMemo: map[token.Pos]string{},
 		pkgByPath: map[string]*packages.Package{}, constErr: map[string]int64{}, specReads: map[string][]string{}}
 }
